@@ -718,9 +718,22 @@ func (c *Ctx) unknownCall(s *State, fr *Frame, x ssa.Instruction, fn *ssa.Functi
 		c.lastCallee = fullFuncName(fn)
 		c.havocAll(s)
 	} else {
-		c.assumptions["out-of-module callees without extern contract ("+fullFuncName(fn)+"): only element heaps of slice arguments and direct fields of pointer arguments are havocked"] = true
+		c.assumptions["out-of-module callees without extern contract ("+fullFuncName(fn)+"): only element heaps of slice arguments and direct fields of pointer arguments (also when boxed in an interface at the call) are havocked"] = true
 		var mods []modEntry
-		for _, a := range args {
+		var raw []ssa.Value
+		if call, ok := x.(ssa.CallInstruction); ok {
+			raw = call.Common().Args
+		}
+		for i, a := range args {
+			// a pointer boxed into an interface right at the call (json/asn1.Unmarshal(data, &v), fmt.Sscan(..., &x)):
+			// the callee can write through it just as through a plain pointer argument
+			if iv, ok := a.(IfaceV); ok && i < len(raw) {
+				if mi, ok := raw[i].(*ssa.MakeInterface); ok {
+					if pt, ok := mi.X.Type().Underlying().(*types.Pointer); ok && isAggregate(pt.Elem()) {
+						c.allFieldEntries(iv.PRef, pt.Elem(), &mods)
+					}
+				}
+			}
 			switch v := a.(type) {
 			case SliceV:
 				el := v.Ty.Underlying().(*types.Slice).Elem()
